@@ -49,7 +49,7 @@ struct Bound {
 }
 
 #[derive(Serialize, Deserialize, Debug, Clone, Hash)]
-struct Case {
+pub struct Case {
     ty: Ty,
     form: Form,
     a: Bound,
@@ -253,7 +253,7 @@ where
     Ok(())
 }
 
-fn run_case(c: &Case) -> Result<(), String> {
+pub fn run_case(c: &Case) -> Result<(), String> {
     match c.ty {
         Ty::U8 => check::<u8>(c),
         Ty::I8 => check::<i8>(c),
@@ -454,7 +454,7 @@ fn explore(ctx: &mut Ctx) {
     });
 }
 
-fn fold_case(&(t, f, am, ao, bm, bo, pattern, period): &(usize, usize, u8, i64, u8, i64, u64, u32)) -> Case {
+pub fn fold_case(&(t, f, am, ao, bm, bo, pattern, period): &(usize, usize, u8, i64, u8, i64, u64, u32)) -> Case {
     let all: [Ty; 13] = [Ty::U8, Ty::I8, Ty::U16, Ty::I16, Ty::U32, Ty::I32, Ty::U64, Ty::I64, Ty::U128, Ty::I128, Ty::Usize, Ty::Isize, Ty::Char];
     Case {
         ty: all[t],
